@@ -287,14 +287,25 @@ def wl_cuckoo(ctx, rng, case):
     from probables.exceptions import CuckooFilterFullError
 
     cfg = ck.gen_cfg(rng, small=rng.random() < 0.7)
-    keys = ck.gen_keys(rng, cfg, rng.randint(3, 14))
+    large = case.index % 40 == 7  # a few default-sized and bigger tables: block / buffer sizes that tiny tables never reach
+    if large:
+        cfg.capacity, cfg.bucket_size, cfg.finger_size, cfg.max_swaps = rng.choice([10000, 16500, 33000]), rng.choice([2, 4]), 4, 50
+        ctx.count("large_cuckoo_tables")
+    keys = ck.gen_keys(rng, cfg, rng.randint(3, 14) if not large else 300)
     if len(keys) < 2:
         return
     case.desc = cfg.desc()
     stdrandom.seed(rng.getrandbits(32))
     f = cfg.make(P)
     model = ck.Model(cfg)
-    for step in range(rng.randint(1, 30)):
+    if large:
+        for kk in keys[:-6]:
+            f.add(kk)
+            fp = cfg.raw_fp(kk)
+            model.counts[fp] = model.counts[fp] + 1 if cfg.counting else 1
+        if rng.random() < 0.5:
+            f.expand()
+    for step in range(rng.randint(1, 30) if not large else 4):
         kk = rng.choice(keys)
         fp = cfg.raw_fp(kk)
         try:
